@@ -6,7 +6,7 @@
     most one segment), then it stays open, half-closes or closes.  Payload bytes
     are never inspected by the code, so streams are lists of [N]: literal bytes are
     < 256 and the harness ships big payloads as positions ([symseq]). *)
-From Coq Require Import String List NArith Bool.
+From Coq Require Import String List NArith Bool Arith PeanoNat.
 From Fabio Require Import Lib.Outcome Lib.Bytes Model.ClientHello Model.BufioR.
 Import ListNotations.
 Local Open Scope N_scope.
@@ -202,12 +202,30 @@ Definition sni_leftover_unrepaired (line : str) (segs : list str) : str :=
   match sni_handshake line segs with Ok (Some (_, b)) => b_buf b | _ => [] end.
 
 (* ---------- ws_handler.go: the handshake reply ----------
-   one out.Read(b) with len b = 1024; b[:n] is written to the client; the relay starts
-   only if that first chunk starts with "HTTP/1.1 101".  [useg1] = what the first Read
-   of the upstream connection returns at most (the upstream's first segment). *)
+   since fix commit 9c9f13b: io.ReadAtLeast(out, b, 12) with len b = 1024: Reads of the
+   upstream connection are accumulated until at least the 12 bytes of "HTTP/1.1 101" are
+   there (one Read returns at most one segment of the upstream's output, cut to the room left
+   in b).  b[:n] is written to the client and tested for the prefix; the relay starts only if
+   it matches.  If the upstream ends (or stays silent beyond the 1 s deadline) before 12 bytes
+   have arrived, ReadAtLeast fails: "error reading handshake", nothing is forwarded to the
+   client (http.Error on a hijacked connection writes nothing) and the connection is closed.
+   Result: Ok (Some (chunk, rest of the upstream's segments)) / Ok None = read error /
+   Err 77 = fuel (excluded by Proofs.Tunnel.ws_read_first_never_out_of_fuel). *)
 Definition ws_101 : str := bs "HTTP/1.1 101"%string.
-Definition ws_first_chunk (useg1 : str) : str := firstn 1024 useg1.
-Definition ws_upgraded (useg1 : str) : bool := has_prefix (ws_first_chunk useg1) ws_101.
+Fixpoint ws_read_loop (fuel : nat) (acc : str) (src : list str) : outcome (option (str * list str)) :=
+  if (12 <=? length acc)%nat then Ok (Some (acc, src)) else
+  match fuel with
+  | O => Err 77
+  | S f =>
+      let '(d, s', eof) := src_read (1024 - length acc)%nat src in
+      if eof then Ok None else ws_read_loop f (acc ++ d) s'
+  end.
+Definition ws_read_first (useg : list str) : outcome (option (str * list str)) := ws_read_loop 12%nat [] useg.
+
+(* the unrepaired handshake step (before 9c9f13b), kept only for C09_ws_split_101_refuted:
+   a single out.Read(b); [useg1] = the upstream's first segment *)
+Definition ws_first_chunk_unrepaired (useg1 : str) : str := firstn 1024 useg1.
+Definition ws_upgraded_unrepaired (useg1 : str) : bool := has_prefix (ws_first_chunk_unrepaired useg1) ws_101.
 
 (* ---------- "the first finished direction ends the tunnel" (tcp_proxy.go:78-90) ----------
    Two copiers.  A copier moves one chunk per step (Read then Write); when its source
@@ -309,16 +327,23 @@ Definition scenario_expect (k : kind) (pp : bool) (line : str) (segs : list str)
       (* the upstream answers the upgrade request at once; unless it also sends its
          payload at once, only the head goes out first *)
       let out0 := match ut with UAtConnect => reply | _ => firstn (N.to_nat whead) reply end in
-      let seg1 := if (0 <? rseg1) && (rseg1 <? nlen' out0) then firstn (N.to_nat rseg1) out0 else out0 in
-      if ws_upgraded seg1 then
-        do c <- copy_buffer segs;
-        (* the client sends nothing before it has the whole head: the head always arrives *)
-        let e := tunnel_expect c reply cwait ce ut ue in
-        Ok {| e_conn := true; e_up := e_up e; e_up_lo := e_up_lo e; e_cl := e_cl e;
-              e_cl_lo := N.max whead (e_cl_lo e); e_cl_hi := N.max whead (e_cl_hi e) |}
-      else
-        let f := ws_first_chunk seg1 in
-        Ok {| e_conn := true; e_up := []; e_up_lo := 0; e_cl := f; e_cl_lo := nlen' f; e_cl_hi := nlen' f |}
+      (* the upstream pauses after the first rseg1 bytes of that output *)
+      let useg := if (0 <? rseg1) && (rseg1 <? nlen' out0)
+                  then [firstn (N.to_nat rseg1) out0; skipn (N.to_nat rseg1) out0] else [out0] in
+      do r <- ws_read_first useg;
+      match r with
+      | None =>        (* error reading handshake: nothing reaches either side *)
+          Ok {| e_conn := true; e_up := []; e_up_lo := 0; e_cl := []; e_cl_lo := 0; e_cl_hi := 0 |}
+      | Some (chunk, _) =>
+        if has_prefix chunk ws_101 then
+          do c <- copy_buffer segs;
+          (* the client sends nothing before it has the whole head: the head always arrives *)
+          let e := tunnel_expect c reply cwait ce ut ue in
+          Ok {| e_conn := true; e_up := e_up e; e_up_lo := e_up_lo e; e_cl := e_cl e;
+                e_cl_lo := N.max whead (e_cl_lo e); e_cl_hi := N.max whead (e_cl_hi e) |}
+        else
+          Ok {| e_conn := true; e_up := []; e_up_lo := 0; e_cl := chunk; e_cl_lo := nlen' chunk; e_cl_hi := nlen' chunk |}
+      end
   | _ =>
       do u <- upstream_stream_f k pp line segs fin;
       match u with
@@ -402,7 +427,5 @@ Definition race_close_unread_reply (up : str) (cwait : bool) (ce : cend) (ut : u
 (* F-C09-2: the client half-closes without first waiting for the reply *)
 Definition region_half_close (cwait : bool) (ce : cend) : bool :=
   match ce with CHalf => negb cwait | _ => false end.
-(* F-C09-3: the upstream's 101 reply arrives with fewer than 12 bytes in its first segment *)
-Definition region_ws_split (k : kind) (reply : str) (rseg1 : N) : bool :=
-  match k with KWs => has_prefix reply ws_101 && (0 <? rseg1) && (rseg1 <? 12) | _ => false end.
+(* F-C09-3 (a 101 reply split inside its first 12 bytes) was repaired by 9c9f13b: no region *)
 (* F-C09-4 (tcp-dynamic ignored pxyproto=true) was repaired by 341d532: no region *)
